@@ -188,6 +188,12 @@ func (r restClientProtocol) prepareUnmarshalledRequest(op *operation, src []byte
 			}
 			return err
 		}
+		if pathBindsField(op.restTarget.vars, fields) {
+			// A field bound by the path template is not a query parameter:
+			// what the path captured must not be overridden.
+			return connect.NewError(connect.CodeInvalidArgument,
+				fmt.Errorf("invalid parameter %q: the field is bound by the URI path", fieldPath))
+		}
 		for _, value := range values {
 			if err := setParameter(msg, fields, value); err != nil {
 				return err
@@ -195,6 +201,27 @@ func (r restClientProtocol) prepareUnmarshalledRequest(op *operation, src []byte
 		}
 	}
 	return nil
+}
+
+// pathBindsField reports whether one of the path variables is bound to the
+// field named by the given path of field descriptors.
+func pathBindsField(vars []routeTargetVar, fields []protoreflect.FieldDescriptor) bool {
+	for _, variable := range vars {
+		if len(variable.fields) != len(fields) {
+			continue
+		}
+		same := true
+		for i, field := range fields {
+			if variable.fields[i].FullName() != field.FullName() {
+				same = false
+				break
+			}
+		}
+		if same {
+			return true
+		}
+	}
+	return false
 }
 
 func (r restClientProtocol) prepareUnmarshalledRequestFromBody(op *operation, src []byte, target proto.Message) error {
